@@ -194,16 +194,19 @@ class World:
         nb = ps.ssize
         return b"\xff" * (nb * redraws) + x.to_bytes(nb, "big") + extra
 
-    def edge_scalars(self, ps):
+    def base_edges(self, ps):
         q = ps.q
-        base = [0, 1, 2, q - 1, q - 2, (q - 1) // 2, (q + 1) // 2]
-        # magic values written in the source (and their neighbours), reduced into [0, q)
+        return [0, 1, 2, q - 1, q - 2, (q - 1) // 2, (q + 1) // 2]
+
+    def edge_scalars(self, ps):
+        """base edge scalars first, then magic values written in the source (and neighbours), reduced into [0, q)"""
+        q = ps.q
         extra = []
         for c in HARVEST_INTS:
             if 2 < c:
                 extra += [c % q, (c + 1) % q, (c - 1) % q]
         seen, out = set(), []
-        for v in base + extra:
+        for v in self.base_edges(ps) + extra:
             if v not in seen:
                 seen.add(v)
                 out.append(v)
@@ -211,7 +214,10 @@ class World:
 
     def scalar(self, ps, edge_prob=0.3):
         r = self.rng
-        if r.random() < edge_prob:
+        u = r.random()
+        if u < edge_prob * 0.7:
+            return r.choice(self.base_edges(ps)) % ps.q
+        if u < edge_prob:
             return r.choice(self.edge_scalars(ps)) % ps.q
         return r.randrange(ps.q)
 
